@@ -165,8 +165,20 @@ def opt_case(draw, tier):
     ckeys = draw(st.lists(ident.filter(lambda k: k not in names
                                        and k not in RESERVED),
                           min_size=nctx, max_size=nctx, unique=True))
+    # any JSON-able value: scalars, None, flat / rectangular / ragged nested
+    # lists, lists mixing scalars and lists, dictionaries
+    leaf = st.one_of(st.integers(-5, 5), ident, st.booleans(), st.none(),
+                     st.sampled_from([0.5, -1.25, 1990, 2005, 0.1]))
+    nested = st.recursive(
+        leaf, lambda ch: st.one_of(
+            st.lists(ch, max_size=3),
+            st.dictionaries(ident, ch, max_size=2)), max_leaves=6)
     context = {k: draw(st.one_of(st.integers(-5, 5), ident, st.booleans(),
-                                 st.lists(st.integers(0, 3), max_size=3)))
+                                 st.lists(st.integers(0, 3), max_size=3),
+                                 nested, nested,
+                                 st.sampled_from([[[1990, 2000], [2005]],
+                                                  [1, [2, 3]], [[1, 2], [3, 4]],
+                                                  [[], [1]], {"a": [1, [2]]}])))
                for k in ckeys}
     rename = {}
     if draw(st.integers(0, 2)) == 0:
